@@ -35,6 +35,25 @@ use brotli::enc::static_dict::{kBrotliEncDictionary, BrotliDictionary};
 
 const POISON: i32 = 0x7ffffff0;
 
+/// per-task context: one hasher instance of the kind (re-zeroed per case) and its constants
+pub struct Ctx {
+    pub h: UH,
+    pub nb: usize,
+    pub nn: usize,
+    pub num_last: i32,
+    pub lbs: u32,
+}
+impl Ctx {
+    pub fn new(kind: &Kind) -> Ctx {
+        let mut h = build(&kind.build);
+        let nb = bucket_slice(&h).len();
+        let nn = num_slice(&h).len();
+        let num_last = h.GetHasherCommon().params.num_last_distances_to_check;
+        let lbs = h.Opts().literal_byte_score;
+        Ctx { h, nb, nn, num_last, lbs }
+    }
+}
+
 fn tables_mut(h: &mut UH) -> (&mut [u16], &mut [u32]) {
     match h {
         UnionHasher::H2(x) => (&mut [], x.buckets_.buckets_.slice_mut()),
@@ -160,18 +179,14 @@ fn dict_token(data: &[u8], cur_m: usize, shallow: bool, lookups: usize, matches:
     format!("{}:{}:{}", lookups, matches, items.join("+"))
 }
 
-pub fn flm_request(kind: &Kind, c: &FlmCase) -> Option<String> {
+pub fn flm_request(kind: &Kind, ctx: &Ctx, c: &FlmCase) -> Option<String> {
     let spec = kind.spec.as_ref()?;
     let shallow = matches!(kind.family, Family::Basic { .. });
     let use_dict = c.dict && match kind.variant { "H3" | "H54" => false, _ => true };
     // `<lookups>:<matches>:<slots>`; slots `-` = no dictionary passed (or a kind that ignores it)
     let dict = if use_dict { dict_token(&c.data, c.cur_ix & c.mask, shallow, c.lookups, c.matches) } else { format!("{}:{}:-", c.lookups, c.matches) };
     let cache = c.cache.iter().map(|x| x.to_string()).collect::<Vec<_>>().join(",");
-    let (num_last, lbs) = {
-        let mut h = build(&kind.build);
-        let nl = h.GetHasherCommon().params.num_last_distances_to_check;
-        (nl, h.Opts().literal_byte_score)
-    };
+    let (num_last, lbs) = (ctx.num_last, ctx.lbs);
     let r = format!(
         "hasher flm {} {} {}{} F {} {} {} {} {} {} {} {} {} {}",
         spec, mask_token(c.mask), hex(&c.data), c.pre.iter().map(|t| format!(" {}", t)).collect::<String>(), c.cur_ix, c.max_length, c.max_backward, c.max_distance, cache, c.in_len, c.in_score, dict, num_last, lbs
@@ -180,15 +195,15 @@ pub fn flm_request(kind: &Kind, c: &FlmCase) -> Option<String> {
 }
 
 /// run the real code; returns (answer line, panic?, found, out)
-pub fn flm_run(kind: &Kind, c: &FlmCase) -> (String, bool, bool, HasherSearchResult) {
-    let mut h = build(&kind.build);
-    zero_tables(&mut h);
+pub fn flm_run(_kind: &Kind, ctx: &mut Ctx, c: &FlmCase) -> (String, bool, bool, HasherSearchResult) {
+    let h = &mut ctx.h;
+    zero_tables(h);
     let mut out = HasherSearchResult { len: c.in_len, len_x_code: 0, distance: 0, score: c.in_score };
-    let pre_ok = apply_pre(&mut h, &c.data, c.mask, &c.pre);
+    let pre_ok = apply_pre(h, &c.data, c.mask, &c.pre);
     if !pre_ok {
         return ("panic".to_string(), true, false, out);
     }
-    set_common(&mut h, c.lookups, c.matches, 0);
+    set_common(h, c.lookups, c.matches, 0);
     let dict: Option<&BrotliDictionary> = if c.dict { Some(&kBrotliEncDictionary) } else { None };
     let r = catch_unwind(AssertUnwindSafe(|| {
         h.FindLongestMatch(dict, &kStaticDictionaryHash[..], &c.data, c.mask, &c.cache, c.cur_ix, c.max_length, c.max_backward, 0, c.max_distance, &mut out)
@@ -196,8 +211,8 @@ pub fn flm_run(kind: &Kind, c: &FlmCase) -> (String, bool, bool, HasherSearchRes
     match r {
         Err(_) => ("panic".to_string(), true, false, out),
         Ok(found) => {
-            let (dn, _) = digest_u16(num_slice(&h));
-            let (db, _) = digest_u32(bucket_slice(&h));
+            let (dn, _) = digest_u16(num_slice(h));
+            let (db, _) = digest_u32(bucket_slice(h));
             let cm = h.GetHasherCommon();
             let ans = format!("{} {} {} {} {} {} {} {} {}", found as u8, out.len, out.len_x_code, out.distance, out.score, dn, db, cm.dict_num_lookups, cm.dict_num_matches);
             (ans, false, found, out)
@@ -268,11 +283,11 @@ fn judge(kind: &Kind, c: &FlmCase, stream: Option<(&[u8], usize)>, found: bool, 
     }
 }
 
-fn case_json(kind: &Kind, c: &FlmCase, seed: u64) -> String {
+fn case_json(kind: &Kind, ctx: &Ctx, c: &FlmCase, seed: u64) -> String {
     format!(
         "{{\"kind\": {}, \"build\": {}, \"request\": {}, \"natural\": {}, \"cache_class\": {}, \"table_class\": {}, \"seed\": {}}}",
         jstr(kind.variant), jstr(&format!("{:?}", kind.build)),
-        jstr(&flm_request(kind, c).map(|r| if r.len() > 6000 { format!("{}...({} chars)", &r[..6000], r.len()) } else { r }).unwrap_or_else(|| format!("(too long) cur_ix {} max_length {} max_backward {} cache {:?}", c.cur_ix, c.max_length, c.max_backward, c.cache))),
+        jstr(&flm_request(kind, ctx, c).map(|r| if r.len() > 6000 { format!("{}...({} chars)", &r[..6000], r.len()) } else { r }).unwrap_or_else(|| format!("(too long) cur_ix {} max_length {} max_backward {} cache {:?}", c.cur_ix, c.max_length, c.max_backward, c.cache))),
         c.natural, jstr(c.cache_class), jstr(c.table_class), seed
     )
 }
@@ -281,7 +296,7 @@ fn hash_type_len(kind: &Kind) -> usize {
     match kind.family { Family::Basic { .. } | Family::Adv8 => 8, _ => 4 }
 }
 
-fn gen_case(kind: &Kind, rng: &mut Rng, small_table: bool) -> (FlmCase, Vec<u8>, usize) {
+fn gen_case(kind: &Kind, ctx: &Ctx, rng: &mut Rng, small_table: bool) -> (FlmCase, Vec<u8>, usize) {
     // ring geometry
     let lg = *rng.pick(&[8u32, 9, 10, 11, 12]);
     let size = 1usize << lg;
@@ -323,43 +338,28 @@ fn gen_case(kind: &Kind, rng: &mut Rng, small_table: bool) -> (FlmCase, Vec<u8>,
         0 => table_class = "natural",
         1 | 2 => {
             table_class = "poisoned";
-            // adversarial entries: spread over the whole table by a stride (cheap: a few hundred pokes)
-            let h = build(&kind.build);
-            let nb = bucket_slice(&h).len();
-            let nn = num_slice(&h).len();
-            drop(h);
+            let (nb, nn) = (ctx.nb, ctx.nn);
             let advs: Vec<u64> = vec![cur_ix as u64, (cur_ix + 1) as u64, (cur_ix + size) as u64, 0, u32::MAX as u64, cur_ix.wrapping_sub(max_backward + 1) as u32 as u64, cur_ix.wrapping_sub(max_backward) as u32 as u64, cur_ix.wrapping_sub(1) as u32 as u64, (cur_ix as u64) ^ 0x8000_0000, cur_ix.wrapping_sub(size) as u32 as u64];
-            // the probed bucket: found by a dry run with a clone is expensive; instead poke around every slot a Store at cur_ix writes
-            pre.push(format!("S:{}:{}", cur_ix, cur_ix + 1));
-            let mut h2 = build(&kind.build);
-            zero_tables(&mut h2);
-            let ok = apply_pre(&mut h2, &data, mask, &[format!("S:{}:{}", cur_ix, cur_ix + 1)]);
-            pre.pop();
-            if ok {
-                let bslot = bucket_slice(&h2).iter().position(|&x| x != 0 || false);
-                let nslot = num_slice(&h2).iter().position(|&x| x != 0);
-                // bucket slot written by Store(cur_ix) (value cur_ix != 0 unless cur_ix == 0)
-                if let Some(bs) = bslot {
-                    let block = match kind.family { Family::Basic { sweep } => sweep, _ => 1usize << kind_block_bits(kind) };
-                    let start = match kind.family { Family::Basic { .. } => bs.saturating_sub((cur_ix >> 3) % block), _ => bs & !(block - 1) };
-                    for j in 0..block.min(64) {
-                        if start + j < nb && rng.chance(3, 4) {
-                            let v = if rng.chance(1, 3) { (base + rng.below(written as u64 + 8) as usize) as u64 } else { *rng.pick(&advs) };
-                            pre.push(format!("P:b:{}:{}", start + j, v));
-                        }
+            // the slots a Store at cur_ix would use, computed from the key (HashBytes is a trait fn)
+            let cur_m = cur_ix & mask;
+            if cur_m + 8 <= data.len() {
+                let key = ctx.h.HashBytes(&data[cur_m..]);
+                let (start, block) = match kind.family {
+                    Family::Basic { sweep } => (key, sweep),
+                    _ => { let bb = kind_block_bits(kind); (key << bb, 1usize << bb) }
+                };
+                for j in 0..block.min(64) {
+                    if start + j < nb && rng.chance(3, 4) {
+                        let v = if rng.chance(1, 3) { (base + rng.below(written as u64 + 8) as usize) as u64 } else { *rng.pick(&advs) };
+                        pre.push(format!("P:b:{}:{}", start + j, v));
                     }
                 }
-                if let Some(ns) = nslot {
-                    if ns < nn { pre.push(format!("P:n:{}:{}", ns, *rng.pick(&[1u64, 2, 3, 15, 16, 17, 255, 256, 257, 65535, 40000]))); }
-                }
+                if key < nn { pre.push(format!("P:n:{}:{}", key, *rng.pick(&[1u64, 2, 3, 15, 16, 17, 255, 256, 257, 65535, 40000]))); }
             }
         }
         _ => {
             table_class = "random";
-            let h = build(&kind.build);
-            let nb = bucket_slice(&h).len();
-            let nn = num_slice(&h).len();
-            drop(h);
+            let (nb, nn) = (ctx.nb, ctx.nn);
             for i in 0..nb { pre.push(format!("P:b:{}:{}", i, if rng.chance(1, 2) { (base + rng.below(written as u64 + 4) as usize) as u64 } else { rng.next() & 0xffff_ffff })); }
             for i in 0..nn { pre.push(format!("P:n:{}:{}", i, rng.below(65536))); }
         }
@@ -395,10 +395,7 @@ fn gen_case(kind: &Kind, rng: &mut Rng, small_table: bool) -> (FlmCase, Vec<u8>,
             cache[k] = v.clamp(i32::MIN as i64, i32::MAX as i64) as i32;
         }
     }
-    {
-        let h = build_light(kind);
-        h.PrepareDistanceCache(&mut cache);
-    }
+    ctx.h.PrepareDistanceCache(&mut cache);
     let in_len = (*rng.pick(&[0usize, 0, 0, 1, 3, 4, 7])).min(max_length.saturating_sub(1));
     let in_score = *rng.pick(&[(30u64 * 8) * 8 + 100, 0, 2020, 100000]);
     let dict = rng.chance(1, 3);
@@ -443,11 +440,12 @@ pub fn run(args: &Args) {
                 if let Some((kind, c)) = parse_request(line, &kinds) {
                     rep.count("corpus.cases");
                     rep.evaluations += 1;
-                    let (ans, panicked, found, out) = flm_run(&kind, &c);
-                    if let Some(rq) = flm_request(&kind, &c) { corr.case(&rq, &ans); }
+                    let mut cctx = Ctx::new(&kind);
+                    let (ans, panicked, found, out) = flm_run(&kind, &mut cctx, &c);
+                    if let Some(rq) = flm_request(&kind, &cctx, &c) { corr.case(&rq, &ans); }
                     if panicked { rep.count("corpus.panic"); }
                     if let Some((sig, what)) = judge(&kind, &c, None, found, &out) {
-                        rep.violation(&format!("flm:{}", sig), &what, case_json(&kind, &c, seed));
+                        rep.violation(&format!("flm:{}", sig), &what, case_json(&kind, &cctx, &c, seed));
                     }
                 }
             }
@@ -472,10 +470,11 @@ pub fn run(args: &Args) {
         let ncases = (if big { 150 } else if mid { 1200 } else { 6000 }) * scale;
         let ncorr = (if big { 6 } else if mid { 30 } else { 150 }) * scale.min(3);
         let every = (ncases / ncorr).max(1);
+        let mut ctx = Ctx::new(&kind);
         for ci in 0..ncases {
-            let (c, stream, base) = gen_case(&kind, &mut rng, small_table);
+            let (c, stream, base) = gen_case(&kind, &ctx, &mut rng, small_table);
             rep.evaluations += 1;
-            let (ans, panicked, found, out) = flm_run(&kind, &c);
+            let (ans, panicked, found, out) = flm_run(&kind, &mut ctx, &c);
             rep.count(&format!("kind.{}", kind.variant));
             rep.count(&format!("table.{}", c.table_class));
             rep.count(&format!("cache.{}", c.cache_class));
@@ -487,7 +486,7 @@ pub fn run(args: &Args) {
                     let sig = format!("flm:panic:{}", match kind.family { Family::Basic { .. } => "basic", Family::Adv4 | Family::Adv8 => "adv", _ => "h9" });
                     rep.count(&format!("viol.{}", sig));
                     if !rep.violations.iter().any(|v| v.signature == sig) {
-                        rep.violations.push(Violation { signature: sig, what: "FindLongestMatch panicked within the encoder's calling conditions".into(), case: case_json(&kind, &c, seed) });
+                        rep.violations.push(Violation { signature: sig, what: "FindLongestMatch panicked within the encoder's calling conditions".into(), case: case_json(&kind, &ctx, &c, seed) });
                     }
                 }
             }
@@ -499,11 +498,11 @@ pub fn run(args: &Args) {
                 let sig = format!("flm:{}", sig);
                 rep.count(&format!("viol.{}", sig));
                 if !rep.violations.iter().any(|v| v.signature == sig) {
-                    rep.violations.push(Violation { signature: sig, what, case: case_json(&kind, &c, seed) });
+                    rep.violations.push(Violation { signature: sig, what, case: case_json(&kind, &ctx, &c, seed) });
                 }
             }
             if ci % every == 0 {
-                if let Some(rq) = flm_request(&kind, &c) { lines.push((rq, ans)); }
+                if let Some(rq) = flm_request(&kind, &ctx, &c) { lines.push((rq, ans)); }
             }
         }
         (lines, rep)
